@@ -31,7 +31,13 @@ Check (C07_audio_specific_config_fields : (forall rate ch fi, freq_index rate = 
   asc_fields (build_audio_specific_config rate ch) = Some (2, fi, ch))%type).
 Check (C07_dOps_stereo : (forall a, 1 <= at_channels a <= 2 ->
   strict_dops (payload_of (build_dops_box a)) = Some (at_channels a, 48000, 0))%type).
-Check (C07_fragmented_av1C_refuted : (forall c, strict_av1c (payload_of (build_av1c_fmp4 c)) = None)%type).
+Check (C07_fragmented_av1C_carries_parsed_fields : (forall c a,
+  extract_av1_config (match fc_av1 c with Some s => s | None => [] end) = Some a ->
+  strict_av1c (payload_of (build_av1c_fmp4 c)) =
+    Some {| a1_profile := av1_seq_profile a; a1_level := av1_seq_level_idx a; a1_tier := av1_seq_tier a;
+            a1_high_bitdepth := av1_high_bitdepth a; a1_twelve_bit := av1_twelve_bit a; a1_mono := av1_monochrome a;
+            a1_sx := av1_subsampling_x a; a1_sy := av1_subsampling_y a; a1_csp := av1_chroma_sample_position a;
+            a1_obus := av1_sequence_header a |})%type).
 Check (C07_av1_parser_accepts_conformant_headers : (forall (s : seq_hdr) (ext : option N),
   valid_seq s = true -> cc_mono_chrome (sh_color s) = false ->
   (match ext with Some e => e < 256 | None => True end) ->
@@ -85,3 +91,43 @@ Check (C07_finished_file_carries_vp9_configuration : (forall b m0 ops m rs s,
   check_C07 b ops (map class_of rs) (sink_of m) = true)%type).
 Check (C07_av1_parsed_fields_fit : (forall d c, extract_av1_config d = Some c ->
   av1_seq_profile c < 8 /\ av1_seq_level_idx c < 32 /\ av1_seq_tier c < 2 /\ av1_chroma_sample_position c < 4)%type).
+Check (C07_init_segment_carries_stream_configuration_h264 : (forall c d,
+  fc_vps c = None -> fc_av1 c = None -> fc_vp9 c = None ->
+  fc_width c < 65536 -> fc_height c < 65536 ->
+  len (fc_sps c) < 65536 -> len (fc_pps c) < 65536 ->
+  first_unit (fun b => b mod 32 =? 7) d = Some (fc_sps c) ->
+  first_unit (fun b => b mod 32 =? 8) d = Some (fc_pps c) ->
+  match read_tracks (init_segment_of (fmuxer_new c)) with
+  | Some (_, trs) =>
+      match track_of HV trs with
+      | Some tr => check_video_entry H264 (fc_width c) (fc_height c) (Some d) (tr_entry tr)
+      | None => false end
+  | None => false
+  end = true)%type).
+Check (C07_init_segment_carries_stream_configuration_h265 : (forall c v d,
+  fc_av1 c = None -> fc_vp9 c = None -> fc_vps c = Some v ->
+  fc_width c < 65536 -> fc_height c < 65536 ->
+  len v < 65536 -> len (fc_sps c) < 65536 -> len (fc_pps c) < 65536 ->
+  first_unit (fun b => (b / 2) mod 64 =? 32) d = Some v ->
+  first_unit (fun b => (b / 2) mod 64 =? 33) d = Some (fc_sps c) ->
+  first_unit (fun b => (b / 2) mod 64 =? 34) d = Some (fc_pps c) ->
+  match read_tracks (init_segment_of (fmuxer_new c)) with
+  | Some (_, trs) =>
+      match track_of HV trs with
+      | Some tr => check_video_entry H265 (fc_width c) (fc_height c) (Some d) (tr_entry tr)
+      | None => false end
+  | None => false
+  end = true)%type).
+Check (C07_init_segment_carries_stream_configuration_av1 : (forall c s a d,
+  fc_av1 c = Some s ->
+  fc_width c < 65536 -> fc_height c < 65536 ->
+  623 + len s < 4294967296 ->
+  extract_av1_config s = Some a ->
+  extract_av1_config d = Some a ->
+  match read_tracks (init_segment_of (fmuxer_new c)) with
+  | Some (_, trs) =>
+      match track_of HV trs with
+      | Some tr => check_video_entry Av1 (fc_width c) (fc_height c) (Some d) (tr_entry tr)
+      | None => false end
+  | None => false
+  end = true)%type).
